@@ -85,6 +85,12 @@ def touch_all(net):
         pass
 
 
+def _first_numpy_engine():
+    """engine of the throw-away first step: inside a symbolic exploration the real NumPy engine with symbolic variables of its
+    own, in a plain float run (replays, concrete companions) the plain NumPy engine"""
+    return runs.symvar_engine() if symx.in_exploration() else runs.numpy_engine()
+
+
 def build_decoy_variant(topo, P, kind, first_engine=None):
     import sym_metanet as M
     import numpy as np
@@ -114,7 +120,7 @@ def build_decoy_variant(topo, P, kind, first_engine=None):
                 built.origins[o].C = vals.get(f"C_{o}", 2000.0)
     with np.errstate(all="ignore"):
         # first step with the kind of engine the real parameters belong to (engine's own variables)
-        net.step(engine=first_engine or runs.symvar_engine(), **T_.model_kwargs(topo, vals if kind == "links" and first_engine is None else {**vals, **{k: P[k] for k in T_.MODEL_PARAMS}}))
+        net.step(engine=first_engine or _first_numpy_engine(), **T_.model_kwargs(topo, vals if kind == "links" and first_engine is None else {**vals, **{k: P[k] for k in T_.MODEL_PARAMS}}))
     touch_all(net)
     if kind == "links":
         for o, c in saved.items():
@@ -137,7 +143,7 @@ def build_rescaled_after_step(topo, P, factor, first_engine=None):
 
     built = T_.build(topo, P)
     with np.errstate(all="ignore"):
-        built.net.step(engine=first_engine or runs.symvar_engine(), **T_.model_kwargs(topo, P))
+        built.net.step(engine=first_engine or _first_numpy_engine(), **T_.model_kwargs(topo, P))
     for l in built.links.values():
         l.turnrate = factor * l.turnrate
     return built
